@@ -11,7 +11,7 @@ RULE = ("histories: every sequence of <=D public mutations/queries on one Measur
         "list of <=T Z-subsets of the register (constant, repeated and overlapping supports included) with position-dependent coefficients, "
         "single terms with each coefficient (also as bare PauliTerm), all-integer coefficients, small (1e-5) and large (1e6) coefficients; Bessel on/off. non-trivial = at least two distinct bitstrings among the shots and an operator with a "
         "non-constant term; distinct = (shots list, operator block)")
-RULE += ' Also: marked qubits given as tuple / set / frozenset / dict keys / PauliTerm.qubits; bitstrings of 33..130 bits.'
+RULE += ' Also: marked qubits given as tuple / set / frozenset / dict keys / PauliTerm.qubits / one-shot iterators and generators; bitstrings of 33..130 bits.'
 ASSUMPTIONS = ["exact rational arithmetic (fractions.Fraction) as reference", "floating point results compared at 1e-12 relative to the natural scale of each entry (|c_i|, |c_i c_j|, |c_i c_j|/denominator)"]
 BOUNDS = {"quick": {"w<=2": "N<=4, <=3 terms", "w=3": "N<=3, <=2 terms"}, "thorough": {"w<=2": "N<=5, <=3 terms", "w=3": "N<=5, <=3 terms"}}
 TOL = 1e-12
@@ -140,7 +140,9 @@ def counts_case(case):
             return {"ok": False, "msg": "expectation from frequencies on qubits %s" % qs, "expected": str(exp), "observed": got, "sig": "counts:frequencies"}
         # the marked qubits may come in any iterable the library itself hands out (PauliTerm.qubits is a set) or a caller may hold
         for kind, marked in (("tuple", tuple(qs)), ("set", set(qs)), ("frozenset", frozenset(qs)), ("reversed list", list(qs)[::-1]), ("dict keys", {q: "Z" for q in qs}.keys()),
-                             ("PauliTerm.qubits", PauliTerm({q: "Z" for q in qs}, 1.0).qubits if qs else set())):
+                             ("PauliTerm.qubits", PauliTerm({q: "Z" for q in qs}, 1.0).qubits if qs else set()),
+                             # one-shot iterables: whatever is done with them can be done only once
+                             ("iterator", iter(list(qs))), ("generator", (q for q in qs)), ("map object", map(int, list(qs))), ("range", range(qs[0], qs[-1] + 1) if list(qs) == list(range(qs[0], qs[-1] + 1)) else tuple(qs)) if qs else ("empty iterator", iter(()))):
             got = get_expectation_value_from_frequencies(marked, dict(counts))
             k += 1
             if abs(got - float(exp)) > TOL:
